@@ -14,6 +14,8 @@ git -C "$WT" apply "$OUT/patch.diff" || { echo "RESULT $NAME: patch does not app
 VERIF_REPO="$WT" /verif/bin/baseline.sh > /tmp/seedv/$NAME.baseline 2>&1; B=$?
 tail -1 /tmp/seedv/$NAME.baseline
 mkdir -p "$(dirname "$WT/$DEMO_DST")"; cp -r "$DEMO_SRC" "$WT/$DEMO_DST"
+# further demo files: EXTRA="src1:dst1 src2:dst2" (dst relative to the repo root)
+for pair in ${EXTRA:-}; do mkdir -p "$(dirname "$WT/${pair#*:}")"; cp -r "${pair%%:*}" "$WT/${pair#*:}"; done
 ( cd "$WT/go" && eval "$DEMO_CMD" ) > /tmp/seedv/$NAME.demo-with 2>&1; W=$?
 git -C "$WT" apply -R "$OUT/patch.diff"
 ( cd "$WT/go" && eval "$DEMO_CMD" ) > /tmp/seedv/$NAME.demo-without 2>&1; O=$?
